@@ -183,8 +183,9 @@ func NewChangeProcessorImpl(cfg ChangeProcessorConfig) *ChangeProcessorImpl {
 				predicate: funcPredicate{stateChanged: isReferenced},
 			},
 			{
-				gvk:       cfg.MustExtractGVK(&discoveryV1.EndpointSlice{}),
-				store:     nil,
+				gvk: cfg.MustExtractGVK(&discoveryV1.EndpointSlice{}),
+				// kept only so that update/delete events can be judged by the previous owner label
+				store:     newObjectStoreMapAdapter(make(map[types.NamespacedName]*discoveryV1.EndpointSlice)),
 				predicate: funcPredicate{stateChanged: isReferenced},
 			},
 			{
